@@ -47,6 +47,14 @@ claimed={
    text="RearrangeFuncs/splitStmts/isFuncDecl/codeOf and the real scanner run in the engine on scripts assembled from symbolic selectors over 16 statement templates and 3 separators; the expected output (stable hoisting of function declarations over chunks, byte-exact) is known by construction. The SourceEx clause runs the real format.Source (parser + printer) in the engine.",
    note="Trusted: gosym engine, z3, the statement templates' classification. Bounded: <= K statements from the template table.",
    technique="symbolic execution of go/ssa with SMT (z3): solver-enumerated selector forks, construction-based oracle; native replay"),
+ "C34": dict(level="model_checking", ref="6 (C34)",
+   text="The real ParseFSDir (with ParseFSFile, defaultClassKind, reqPkg, go/parser) runs over a harness FileSystem whose listing has symbolic names (prefix + <= L symbolic bytes), symbolic IsDir, default and custom class-kind configurations and both ParseGoAsGoPlus settings; the returned package map is compared with the property's statement written as a reference function.",
+   note="Trusted: gosym engine, z3, the reference classification in harness/c34. Bounded: K entries, L symbolic bytes per name, contents fixed.",
+   technique="differential symbolic execution (implementation vs reference) over go/ssa with SMT (z3); native replay"),
+ "C36": dict(level="model_checking", ref="6 (C36)",
+   text="Two-state relational check of the real dirHash: transcripts of what is hashed are equal iff the sets of (name,size,mtime) of compilable non-underscore regular files are equal, for arbitrary pairs of directory states within the bound; os.ReadDir/sha256/Module.IsClass are stubbed symbolically and the stubs are cross-validated against real directories natively.",
+   note="Trusted: gosym engine, z3, collision-freeness of SHA-256, the listing model. Bounded: K entries, L bytes, value ranges.",
+   technique="relational (two-run) symbolic execution over go/ssa with SMT (z3); native replay on real directories"),
 }
 na_default="check not built yet (work in progress)"
 na={}
